@@ -632,6 +632,8 @@ def base_untrimmed(r):
     r.ev("tick", L, 0.0625)
     r.deliver_all()
     r.rounds(2)
+    r.ev("submit", L, "big" + "B" * 900)     # the journal file has to grow; sent in chunks
+    r.rounds(3)
     return {"leader": L}
 
 
@@ -682,7 +684,7 @@ def plan(ctx):
     if ctx.pid == "C07":
         items += [("base", "vote", 3, False, 1), ("base", "vote", 3, True, 1), ("base", "vote", 5, True, 1),
                   ("base", "replication", 3, True, 3 if quick else 1), ("base", "conflict", 3, False, 3 if quick else 1)]
-        n_random, stride = ctx.scale(6, 300), 3
+        n_random, stride = ctx.scale(16, 400), 2
     else:
         items += [("base", "untrimmed", 2, True, 1), ("base", "replication", 3, True, 1), ("base", "snapshot", 3, True, 1),
                   ("base", "conflict", 3, True, 1), ("base", "vote", 3, True, 1), ("base", "replication", 2, False, 2 if quick else 1),
@@ -690,7 +692,7 @@ def plan(ctx):
         if not quick:
             items += [("base", "snapshot", 3, False, 1), ("base", "conflict", 5, False, 1), ("base", "replication", 5, True, 1),
                       ("base", "snapshot", 5, True, 1), ("base", "untrimmed", 5, True, 1)]
-        n_random, stride = ctx.scale(8, 600), ctx.scale(4, 2)
+        n_random, stride = ctx.scale(20, 800), ctx.scale(3, 1)
     for k in range(n_random):
         items.append(("random", k, ctx.scale(160, 300), stride))
     return items
@@ -754,7 +756,9 @@ def assemble(ctx, results, t0, planned, skipped):
         need = ["journal.record-store", "journal.header-store", "meta.tmp-write", "meta.move", "dump.tmp-write", "dump.rename",
                 "snapin.tmp-write", "snapin.rename"]
         missing = [k for k in need if k not in prim_kinds]
-        hneed = ["headdrop", "truncate", "deliver:request_vote", "deliver:append_entries", "(snapshot)", "(first-after-restart)", "restart"]
+        need.append("journal.resize")
+        hneed = ["headdrop", "truncate", "deliver:request_vote", "deliver:append_entries", "(snapshot)", "(chunk)",
+                 "(first-after-restart)", "tick(leader)", "deliver:response_vote"]
         missing += [h for h in hneed if not any(h in k for k in handler_kinds)]
     else:
         missing = [k for k in ("meta.tmp-write", "meta.move") if k not in prim_kinds]
